@@ -205,9 +205,65 @@ def oracle(stores, cases, impl):
                     sbad("srv-foreign", "live server: an element from outside the table / not matching is returned")
             elif toks.get("perpart") != "ok":
                 sbad("srv-order", "live server: elements of one partition are not in key order")
+        elif kind == "F":
+            typ, table, count, match = c[1], unh(c[2]), int(c[3]), unh(c[4])
+            pre = table + b":"
+            raws = [x for x in st["T"].get(typ, []) if x.startswith(pre)]
+            exp = []
+            if typ == "kv":
+                for raw in sorted(raws):
+                    if not match or glob_match(match, raw):
+                        exp.append((raw, b"v" + raw))
+            else:
+                ct = {"hash": "h", "set": "s", "zset": "z"}.get(typ)
+                for raw in sorted(raws, key=lambda r: (len(r), r)):      # element keys carry a 2-byte key length
+                    k = raw[len(pre):]
+                    if match and not glob_match(match, k):
+                        continue
+                    els = [b"x"] if typ == "list" else sorted(st["C"].get((ct, raw), []))
+                    exp += [(k, e) for e in els]
+            hk = "fullscan %s count=%s%s" % (typ, "N" if count > 5 else count, " match" if match else "")
+            hist[hk] = hist.get(hk, 0) + 1
+            if len(exp) >= 2:
+                nontrivial.add(vlib.case_hash("\t".join(c) + repr(sorted(raws))))
+
+            def fbad(sig, what):
+                fails.append(dict(name="%s-%s" % (sig, cid), case=dict(case=c, impl=out[:2000], expected=["%s=%s" % (a.hex(), b_.hex()) for a, b_ in exp][:200]), what=what))
+            parts = out.split(" | ")
+            head = parts[0].split(" ")
+            calls = int(head[0].split("=")[1])
+            got, bad_page = [], None
+            for pg in parts[1:]:
+                if ">" not in pg:
+                    bad_page = pg
+                    break
+                for grp in [g for g in pg.split(">", 1)[1].split(",") if g]:
+                    k, es = grp.split("=", 1)
+                    got += [(unh(k), unh(e)) for e in es.split("+")] if es else []
+            if "NONTERM" in head:
+                fbad("fullscan-nonterm", "FULLSCAN: the iteration does not reach the empty cursor")
+            elif bad_page:
+                fbad("fullscan-error", "FULLSCAN: a call failed: " + bad_page)
+            elif got != exp:
+                if len(got) != len(set(got)):
+                    fbad("fullscan-dup", "FULLSCAN: an element is returned more than once")
+                elif set(exp) - set(got):
+                    fbad("fullscan-omit", "FULLSCAN: an existing (matching) element of the table is never returned")
+                elif set(got) - set(exp):
+                    fbad("fullscan-foreign", "FULLSCAN: an element from another table/type or not matching is returned")
+                else:
+                    fbad("fullscan-order", "FULLSCAN: elements are not in engine key order")
+            elif calls > len(exp) // eff_count(count) + 1:
+                fbad("fullscan-calls", "FULLSCAN: more calls than |P|/COUNT + 1")
         elif kind == "R":
             hist["range builder"] = hist.get("range builder", 0) + 1
     return fails, hist, nontrivial
+
+
+def read_x(d):
+    """observables judged by the direct oracle only (FULLSCAN is not modelled)"""
+    px = os.path.join(d, "implx.out")
+    return vlib.read_out(px)[0] if os.path.exists(px) else {}
 
 
 def run_impl(ctx, sub, args):
@@ -261,7 +317,7 @@ def run(ctx):
         for i, cp in enumerate(corpus):
             runs.append(("corpus%d" % i, "-replay %s" % cp))
         if quick:
-            runs.append(("fresh", "-seed %d -stores 14 -cases 70 -engines mem,pebble -srv 1" % ctx.seed))
+            runs.append(("fresh", "-seed %d -stores 14 -cases 70 -engines mem,pebble -srv 1 -big 5003" % ctx.seed))
         else:
             runs.append(("fresh", "-seed %d -stores 150 -cases 120 -engines mem,pebble,rocksdb -srv 6 -big 5003" % ctx.seed))
 
@@ -275,6 +331,7 @@ def run(ctx):
         mism, cnt = vlib.diff_outputs(os.path.join(d, "impl.out"), os.path.join(d, "model.out"))
         stores, cases = parse_cases(os.path.join(d, "cases.tsv"))
         impl, _ = vlib.read_out(os.path.join(d, "impl.out"))
+        impl.update(read_x(d))
         fails, hist, nontriv = oracle(stores, cases, impl)
         attach_replay(fails, stores, cases)
         all_mism += mism
@@ -286,7 +343,7 @@ def run(ctx):
         for st in stores.values():
             if st["eng"]:
                 engines[st["eng"]] = engines.get(st["eng"], 0) + 1
-        ids = [k for k in cases if cases[k][0] in ("K", "E", "S")]
+        ids = [k for k in cases if cases[k][0] in ("K", "E", "S", "F")]
         for cid in ids[:2] + ids[-1:]:
             samples.append(dict(case=cases[cid], impl=(impl.get(cid) or "")[:400]))
 
@@ -296,6 +353,7 @@ def run(ctx):
             return []
         stores, cases = parse_cases(os.path.join(d2, "cases.tsv"))
         impl, _ = vlib.read_out(os.path.join(d2, "impl.out"))
+        impl.update(read_x(d2))
         fails, _, _ = oracle(stores, cases, impl)
         attach_replay(fails, stores, cases)
         return fails
